@@ -108,4 +108,18 @@ def logicalNames (fs : List FsEnt) (name : Path) : List Path :=
       | none => names
     chase fs 40 (cleanAbs name) names
 
+/-- no symbolic link of the file system is a proper ancestor of `p`: every
+parent component of `p` is a real directory, so the operating system acts on
+`p` where it is written -/
+def ParentsReal (fs : List FsEnt) (p : Path) : Prop :=
+  ∀ e ∈ fs, e.link ≠ none → ¬ ((e.path ++ ['/']) <+: p)
+
+/-- where an operation on `p` acts when the link `e` is a parent component of
+`p` (the kernel resolves parent links; the last component is not followed by
+`os.RemoveAll`) -/
+def throughLink (e : FsEnt) (p : Path) : Path :=
+  match e.link with
+  | some t => if (e.path ++ ['/']).isPrefixOf p then t ++ p.drop e.path.length else p
+  | none => p
+
 end Martian.Vdr
